@@ -39,6 +39,7 @@ const (
 	VHostA = "127.0.0.1:47811"
 	VHostB = "127.0.0.2:47811"
 	VHostC = "127.0.0.1:47812" // same address as A, another port: a different origin
+	VHostD = "127.0.0.2:47812" // accepts TCP connections and never speaks (natively)
 )
 
 // VResp scripts one response.
@@ -61,13 +62,16 @@ type VRequest struct {
 type VWorld struct {
 	Routes   map[string]*VResp // "host:port" + request-target
 	Refuse   map[string]bool   // hosts that refuse connections
+	StallHandshake map[string]bool // hosts that accept TCP and then stay silent (no TLS handshake)
 	Log      []*VRequest
 	Chunk    int // max bytes per Read under the engine (0 = everything available)
 	AnyHost  bool // engine: any syntactically valid host accepts connections
 	mu       sync.Mutex
 }
 
-func NewWorld() *VWorld { return &VWorld{Routes: map[string]*VResp{}, Refuse: map[string]bool{}} }
+func NewWorld() *VWorld {
+	return &VWorld{Routes: map[string]*VResp{}, Refuse: map[string]bool{}, StallHandshake: map[string]bool{}}
+}
 
 var vWorld *VWorld
 
@@ -126,11 +130,88 @@ func VerifDial(dialer *net.Dialer, network, addr string, cfg *tls.Config) (*tls.
 	if !known || w.Refuse[addr] {
 		return nil, errRefused
 	}
+	if w.StallHandshake[addr] {
+		// tls.DialWithDialer bounds connecting and the handshake by Dialer.Timeout
+		VClock = VClock.Add(dialer.Timeout)
+		return nil, errTimeout
+	}
 	c := &tls.Conn{}
 	sc := &simConn{host: addr, req: &VRequest{Host: addr}}
 	w.Log = append(w.Log, sc.req)
 	simConns[c] = sc
 	return c, nil
+}
+
+// ---- the same connection reached through net.Dialer.Dial + tls.Client +
+// Handshake (code that does not use tls.DialWithDialer)
+
+type simNetConn struct {
+	host        string
+	deadline    time.Time
+	hasDeadline bool
+}
+
+type simAddr struct{}
+
+func (simAddr) Network() string { return "tcp" }
+func (simAddr) String() string  { return "sim" }
+
+func (c *simNetConn) Read(p []byte) (int, error)         { return 0, io.EOF }
+func (c *simNetConn) Write(p []byte) (int, error)        { return len(p), nil }
+func (c *simNetConn) Close() error                       { return nil }
+func (c *simNetConn) LocalAddr() net.Addr                { return simAddr{} }
+func (c *simNetConn) RemoteAddr() net.Addr               { return simAddr{} }
+func (c *simNetConn) SetDeadline(t time.Time) error      { c.deadline, c.hasDeadline = t, !t.IsZero(); return nil }
+func (c *simNetConn) SetReadDeadline(t time.Time) error  { return c.SetDeadline(t) }
+func (c *simNetConn) SetWriteDeadline(t time.Time) error { return c.SetDeadline(t) }
+
+func VerifNetDial(d *net.Dialer, network, addr string) (net.Conn, error) {
+	w := vWorld
+	verifrt.Assert(network == "tcp", "dials-tcp-only")
+	if !validHost(addr) {
+		return nil, errors.New("dial tcp: lookup: no such host")
+	}
+	known := w.AnyHost || w.StallHandshake[addr]
+	for k := range w.Routes {
+		if strings.HasPrefix(k, addr+"/") {
+			known = true
+		}
+	}
+	if !known || w.Refuse[addr] {
+		return nil, errRefused
+	}
+	return &simNetConn{host: addr}, nil
+}
+
+var simUnder = map[*tls.Conn]*simNetConn{}
+
+func VerifTLSClient(conn net.Conn, cfg *tls.Config) *tls.Conn {
+	nc := conn.(*simNetConn)
+	c := &tls.Conn{}
+	sc := &simConn{host: nc.host, req: &VRequest{Host: nc.host}}
+	simConns[c] = sc
+	simUnder[c] = nc
+	return c
+}
+
+func VerifHandshake(c *tls.Conn) error {
+	sc := simConns[c]
+	if vWorld.StallHandshake[sc.host] {
+		nc := simUnder[c]
+		if sc.hasDeadline || (nc != nil && nc.hasDeadline) {
+			d := sc.deadline
+			if !sc.hasDeadline {
+				d = nc.deadline
+			}
+			if VClock.Before(d) {
+				VClock = d
+			}
+			return errTimeout
+		}
+		verifrt.Hang("tls-handshake-without-deadline-on-a-silent-peer")
+	}
+	vWorld.Log = append(vWorld.Log, sc.req)
+	return nil
 }
 
 // VerifPlainDial: any plaintext dial is a violation in itself.
@@ -271,6 +352,20 @@ func startNative() {
 			}
 			go serve(ln, host)
 		}
+		silent, err := net.Listen("tcp", VHostD)
+		if err != nil {
+			nativeErr = err
+			return
+		}
+		go func() {
+			for {
+				c, err := silent.Accept()
+				if err != nil {
+					return
+				}
+				go func() { time.Sleep(30 * time.Second); c.Close() }()
+			}
+		}()
 	})
 	if nativeErr != nil {
 		panic("cannot start the loopback TLS world: " + nativeErr.Error())
